@@ -43,87 +43,131 @@ def _contains(root, n):
     return False
 
 
-def writer(ctx, rule="R16.codec-alone"):
+def writer(ctx, rule="R16.codec-alone", key_prefix="codec-alone"):
+    """compress_data as a table over the codec values, by abstract execution (see rules/sem.py): the
+    caller's bytes are appended only for UNCOMPRESSED; every other codec appends exactly the scratch
+    buffer its own compressor filled (whatever size that produced), unknown codecs and a failed scratch
+    allocation append nothing and return an error."""
+    from .sem import run as sem_run, Inconclusive, set_out, Ptr
     P = ctx.P
     cd = P.fn("compress_data", PW)
-    pn = [p["n"] for p in cd.params]
-    if len(pn) != 4:
-        raise AnalysisBroken("compress_data: expected (codec, input, input_size, output)")
-    inp = cd.params[1]["d"]
-    # the local that receives the compressor's size: passed by address to carquet_*_compress
-    size_locals = set()
-    buf_locals = set()
-    for c in cd.calls():
-        if c.callee and c.callee.startswith("carquet_") and c.callee.endswith("_compress"):
-            a = c.args()
-            if len(a) >= 5:
-                x = a[4].strip_casts()
-                if x.k == "UnaryOperator" and x.op == "&" and x.c[0].strip_casts().k == "DeclRefExpr":
-                    size_locals.add(x.c[0].strip_casts().get("d"))
-                y = a[2].strip_casts()
-                if y.k == "DeclRefExpr":
-                    buf_locals.add(y.get("d"))
-    apps = cd.calls("carquet_buffer_append")
-    ctx.floor("compress_data appends", len(apps), 2)
-    for i, c in enumerate(apps):
-        a = c.args()
-        d0 = a[1].strip_casts()
-        d1 = a[2].strip_casts()
-        raw = d0.k == "DeclRefExpr" and d0.get("dk") == "param" and d0.get("d") == inp
-        if raw:
-            ok = _under_uncompressed_if(c, cd)
-            how = "under `codec == UNCOMPRESSED`" if ok else "raw input appended for a codec other than UNCOMPRESSED"
-        else:
-            ok = d0.k == "DeclRefExpr" and d0.get("d") in buf_locals and d1.k == "DeclRefExpr" and d1.get("d") in size_locals
-            how = "compressor's buffer and size" if ok else "appended (%s, %s) are not the compressor's output" % (src(a[1]), src(a[2]))
-        ctx.ob(rule, "codec-alone|%s:compress_data|append#%d" % (PW, i), P.where(c),
-               "compress_data stores the caller's bytes only for UNCOMPRESSED and the compressor's output otherwise", ok, how)
+    codecs = P.enum("carquet_compression")
+    pairs = {"CARQUET_COMPRESSION_SNAPPY": "snappy", "CARQUET_COMPRESSION_LZ4": "lz4",
+             "CARQUET_COMPRESSION_LZ4_RAW": "lz4", "CARQUET_COMPRESSION_GZIP": "gzip",
+             "CARQUET_COMPRESSION_ZSTD": "zstd"}
+    stems = ("snappy", "lz4", "gzip", "zstd")
+    hooks = {"malloc": lambda ev, a, it: ev.append(("malloc", a[0])) or Ptr("scratch", 0, 1),
+             "free": lambda ev, a, it: ev.append(("free", getattr(a[0], "base", a[0]))) or 0,
+             "carquet_buffer_append": lambda ev, a, it: ev.append(("append", getattr(a[1], "base", a[1]), a[2])) or 0}
+    for i_, st in enumerate(stems):
+        hooks["carquet_%s_compress_bound" % st] = (lambda ev, a, it, st=st, i_=i_: ev.append(("bound", st, a[0])) or 5000 + i_)
+
+        def comp(ev, a, it, st=st):
+            ev.append(("compress", st, getattr(a[0], "base", a[0]), a[1], getattr(a[2], "base", a[2]), a[3]))
+            if len(a) > 4:
+                set_out(it, a[4])       # the produced size is data: unknown
+            return 0
+        hooks["carquet_%s_compress" % st] = comp
+    values = dict(codecs)
+    values["<unknown 99>"] = 99
+    for cname, cval in sorted(values.items(), key=lambda kv: kv[1]):
+        key = "%s|%s:compress_data|%s" % (key_prefix, PW, cname)
+        try:
+            paths = sem_run(P, cd, [cval, Ptr("input", 0, 1), 777, Ptr("output", 0, 1)], hooks=hooks, single=False)
+        except Inconclusive as ex:
+            ctx.inconclusive(rule, key, P.where(cd.body), "abstract execution of compress_data", str(ex))
+            continue
+        worst = None
+        for ret, ev, _ in paths:
+            if cname == "CARQUET_COMPRESSION_UNCOMPRESSED":
+                ok = ev == [("append", "input", 777)]
+                what = "UNCOMPRESSED appends the caller's bytes and nothing else"
+            elif cname in pairs:
+                st = pairs[cname]
+                b = 5000 + stems.index(st)
+                ok = (len(ev) >= 4 and ev[0] == ("bound", st, 777) and ev[1] == ("malloc", b)
+                      and ev[2][:6] == ("compress", st, "input", 777, "scratch", b)
+                      and [e for e in ev if e[0] == "append"] == [e for e in ev if e[0] == "append" and e[1] == "scratch"]
+                      and len([e for e in ev if e[0] == "append"]) == 1 and ("free", "scratch") in ev
+                      and not any(e[0] in ("bound", "compress") and e[1] != st for e in ev))
+                what = ("%s: bound from carquet_%s_compress_bound(input_size), scratch = malloc(bound), compressed by "
+                        "carquet_%s_compress(input, input_size, scratch, bound), only the scratch buffer is appended, then freed"
+                        % (cname, st, st))
+            else:
+                ok = ret not in (0, None) and not any(e[0] in ("append", "compress") for e in ev)
+                what = "%s (not implemented) is refused without writing anything" % cname
+            if not ok and worst is None:
+                worst = "events: %s, returns %s" % (ev[:6], ret)
+        ctx.ob(rule, key, P.where(cd.body), what, worst is None, worst or "%d path(s)" % len(paths))
+        if cname in pairs:
+            # the scratch allocation fails: an error, nothing appended
+            h2 = dict(hooks)
+            h2["malloc"] = lambda ev, a, it: ev.append(("malloc", a[0])) or 0
+            try:
+                paths = sem_run(P, cd, [cval, Ptr("input", 0, 1), 777, Ptr("output", 0, 1)], hooks=h2, single=False)
+            except Inconclusive as ex:
+                ctx.inconclusive(rule, key + "|oom", P.where(cd.body), "abstract execution of compress_data", str(ex))
+                continue
+            badp = [(ret, ev) for ret, ev, _ in paths if ret in (0, None) or any(e[0] in ("append", "compress") for e in ev)]
+            ctx.ob(rule, key + "|oom", P.where(cd.body),
+                   "%s: when the scratch allocation fails compress_data returns an error and appends nothing" % cname,
+                   not badp, "returns %s after %s" % (badp[0][0], badp[0][1][:4]) if badp else "")
+    ctx.floor("compress_data codec values evaluated", len(values), 7)
+
 
 
 def reader(ctx, rule="R16.codec-alone"):
+    """decompress_page as a table over the codec values, by abstract execution: UNCOMPRESSED copies the
+    stored bytes; every other codec hands exactly (compressed, compressed_size, decompressed, capacity,
+    size out) to its own decompressor and returns its status; nothing else touches the output - in
+    particular not when the two sizes happen to be equal."""
+    from .sem import run as sem_run, Inconclusive, set_out, Ptr
     P = ctx.P
     dp = P.fn("decompress_page", PR)
-    sws = [s for s in find_switches(dp) if "codec" in src(s.c[-2])]
-    if len(sws) != 1:
-        raise AnalysisBroken("decompress_page: expected one switch over the codec")
-    sw = sws[0]
-    names = [p["n"] for p in dp.params]
-    outd = [p["d"] for p in dp.params if p["n"] in ("decompressed", "decompressed_size")]
-    if len(outd) != 2:
-        raise AnalysisBroken("decompress_page: output parameters not found")
+    codecs = P.enum("carquet_compression")
+    pairs = {"CARQUET_COMPRESSION_SNAPPY": "snappy", "CARQUET_COMPRESSION_LZ4": "lz4",
+             "CARQUET_COMPRESSION_LZ4_RAW": "lz4", "CARQUET_COMPRESSION_GZIP": "gzip",
+             "CARQUET_COMPRESSION_ZSTD": "zstd"}
+    hooks = {"memcpy": lambda ev, a, it: ev.append(("copy", getattr(a[0], "base", a[0]), getattr(a[1], "base", a[1]), a[2])) or 0,
+             "memmove": lambda ev, a, it: ev.append(("copy", getattr(a[0], "base", a[0]), getattr(a[1], "base", a[1]), a[2])) or 0}
+    for st in ("snappy", "lz4", "gzip", "zstd"):
+        hooks["carquet_%s_decompress" % st] = (lambda ev, a, it, st=st: ev.append(
+            ("decompress", st, getattr(a[0], "base", a[0]), a[1], getattr(a[2], "base", a[2]), a[3],
+             getattr(a[4], "base", a[4]) if len(a) > 4 else None)) or 4242)
+    values = dict(codecs)
+    values["<unknown 99>"] = 99
     n = 0
-    bad = []
-    for x in dp.body.walk():
-        touches = False
-        if x.k == "CallExpr" and x.callee:
-            touches = any(y.k == "DeclRefExpr" and y.get("dk") == "param" and y.get("d") in outd
-                          for a in x.args() for y in a.walk())
-        elif is_assign(x):
-            touches = any(y.k == "DeclRefExpr" and y.get("dk") == "param" and y.get("d") in outd for y in x.c[0].walk())
-        elif x.k == "ReturnStmt":
-            touches = bool(x.c) and x.c[0] is not None and (x.c[0].cv == 0 or x.c[0].strip().k == "CallExpr")
-        if not touches:
+    for cname, cval in sorted(values.items(), key=lambda kv: kv[1]):
+        worst = None
+        for csize, cap in ((300, 500), (500, 500), (600, 500)):
+            n += 1
+            try:
+                paths = sem_run(P, dp, [cval, Ptr("stored", 0, 1), csize, Ptr("out", 0, 1), cap, Ptr("outsize", 0, 8)],
+                                hooks=hooks, single=False, heap0={})
+            except Inconclusive as ex:
+                ctx.inconclusive(rule, "codec-alone|%s:decompress_page|%s" % (PR, cname), P.where(dp.body),
+                                 "abstract execution of decompress_page", str(ex))
+                worst = "?"
+                break
+            for ret, ev, heap in paths:
+                if cname == "CARQUET_COMPRESSION_UNCOMPRESSED":
+                    if csize <= cap:
+                        ok = ev == [("copy", "out", "stored", csize)] and ret == 0 and heap.get(("outsize", 0)) == csize
+                    else:
+                        ok = ev == [] and ret not in (0, None)
+                elif cname in pairs:
+                    ok = ev == [("decompress", pairs[cname], "stored", csize, "out", cap, "outsize")] and ret == 4242
+                else:
+                    ok = ev == [] and ret not in (0, None)
+                if not ok and worst is None:
+                    worst = "stored %d bytes, capacity %d: %s, returns %s" % (csize, cap, ev, ret)
+        if worst == "?":
             continue
-        n += 1
-        if not _contains(sw, x):
-            bad.append(x)
-    ctx.floor("decompress_page output effects", n, 8)
-    ctx.ob(rule, "codec-alone|%s:decompress_page|outside-switch" % PR, P.where(bad[0] if bad else dp.body),
-           "decompress_page writes its output and reports success only inside the switch over the codec",
-           not bad, "; ".join("L%d %s" % (b.l, src(b)[:50]) for b in bad[:3]))
-    table, order = switch_table(sw)
-    for lab in order:
-        if lab == "default":
-            continue
-        stmts = table[lab]
-        copies = [c for s in stmts for c in s.walk() if c.k == "CallExpr" and c.callee in ("memcpy", "memmove")]
-        decs = [c for s in stmts for c in s.walk() if c.k == "CallExpr" and c.callee and c.callee.endswith("_decompress")]
-        if lab == UNC:
-            ok = bool(copies) and not decs
-        else:
-            ok = bool(decs) and not copies
-        ctx.ob(rule, "codec-alone|%s:decompress_page|%s" % (PR, lab), P.where(stmts[0]) if stmts else P.where(sw),
-               "%s: %s" % (lab, "raw copy" if lab == UNC else "decoded by its decompressor, never copied raw"), ok)
+        what = ("UNCOMPRESSED copies the stored bytes when they fit, else fails" if cname == "CARQUET_COMPRESSION_UNCOMPRESSED"
+                else ("%s is decoded by carquet_%s_decompress with the stored bytes and the full capacity, whatever the sizes"
+                      % (cname, pairs[cname]) if cname in pairs else "%s (not implemented) is refused" % cname))
+        ctx.ob(rule, "codec-alone|%s:decompress_page|%s" % (PR, cname), P.where(dp.body), what, worst is None, worst or "")
+    ctx.floor("decompress_page table points", n, 21)
 
 
 def loaders(ctx, rule="R16.codec-alone"):
